@@ -12,6 +12,10 @@ INBOUND_ROOTS = [
     r"client::context::Context::<[^>]*>::connect::\{closure#0\}$",
     r"client::context::Context::<[^>]*>::authorize::\{closure#0\}$",
     r"client::context::Context::<[^>]*>::run::\{closure#0\}$",
+    # the futures / streams handed to the caller are completed with inbound data as well
+    r"client::handle::ContextHandle::(disconnect|ping|publish|subscribe|unsubscribe)::\{closure#0\}$",
+    r"client::stream::SubscribeStream as futures::Stream>::poll_next$",
+    r"client::rsp::SubscribeRsp::stream$",
 ]
 
 UNWRAPS = re.compile(r"(option::Option|result::Result)::(unwrap|expect|unwrap_err|expect_err|unwrap_unchecked)$")
@@ -653,6 +657,32 @@ def d_cmp(site):
     return None
 
 
+def d_build(ctx, site):
+    """`XBuilder::build().unwrap()` where every mandatory field's setter is called on the same builder before the
+    build on all paths and the builder has no validate() hook that could refuse."""
+    if site.kind != "unwrap" or "Builder::build" not in site.what:
+        return None
+    body = site.body
+    o = body.origin(site.operand, through_calls=False)
+    if o[0] != "call":
+        return None
+    bt = o[2]
+    badt = strip_generics(callee_name(bt) or "").rsplit("::", 1)[0]
+    from r_codec_rx import builder_info
+    bi = builder_info(ctx, badt)
+    if bi is None or bi["validate"] is not None:
+        return None
+    bl = body.base_local(bt["ops"][0])
+    called = set()
+    for i, t in body.calls(re.escape(badt) + r"::\w+$"):
+        if t["ops"] and body.base_local(t["ops"][0]) == bl and body.dominates(i, o[1]):
+            called.add(callee_name(t).split("::")[-1])
+    missing = bi["mandatory"] - called
+    if not missing:
+        return "D-build: mandatory fields %s of %s are set before build() on every path" % (sorted(bi["mandatory"]) or "(none)", short_ty(badt))
+    return None
+
+
 def d_quota(site):
     """`send_quota + 1` on an edge establishing send_quota != / < remote_receive_maximum: safe under the invariant
     send_quota <= remote_receive_maximum <= 65535, which is what the QUOTA rules establish (linked)."""
@@ -680,13 +710,13 @@ def load_ledger():
 def all_sites(ctx):
     reach = reachable_bodies(ctx)
     sites = []
+    counters = {}       # ordinals are global per key text (closure numbers are normalised away)
     for p in sorted(reach):
         body = ctx.world.body(p)
         if body is None or not body.fn["file"].startswith("src/"):
             continue
         ctx.note(body)
         ss = enumerate_sites(ctx, body)
-        counters = {}
         for s_ in ss:
             base = "%s|%s|%s" % (fn_key(p), s_.kind, s_.what)
             counters[base] = counters.get(base, 0) + 1
@@ -709,6 +739,9 @@ def discharge(ctx, site, ledger):
         r = f(site)
         if r:
             return r
+    r = d_build(ctx, site)
+    if r:
+        return r
     e = ledger.get(site.key)
     if e:
         return "ledger: " + e["reason"] + (" [-> %s]" % e["rule"] if e.get("rule") else "")
@@ -861,6 +894,11 @@ def variant_domain(ctx):
                 bad = sorted(vs - domain) if vs is not None else ["<unknown>"]
                 nm = short_ty(strip_generics(cb.path).replace("::{closure#0}", ""))
                 arm = ""
+                if vs == {"Publish"} and adt == TXPACKET:
+                    from r_key import _qos_branch
+                    q = _qos_branch(cb, i)
+                    out.append(Inst("VARIANT-DOMAIN", "tx_action_id@%s:publish-qos:%s" % (nm, q), q in ("AtLeastOnce", "ExactlyOnce"), cb.site(i),
+                                    "tx_action_id(TxPacket::Publish(..)) is called in the QoS branch %s" % q, "QoS 1 / QoS 2 only (the QoS 0 arm of tx_action_id panics)"))
                 out.append(Inst("VARIANT-DOMAIN", "%s@%s:%s" % (short_ty(fn_re.strip("$")), nm, ",".join(bad) if bad else "inside-domain#%d" % len([o for o in out if "@%s:inside" % nm in o.key])),
                                 not bad, cb.site(i),
                                 "argument may be %s; %s panics for %s" % (sorted(vs) if vs is not None else "any variant", short_ty(fn_re.strip("$")), sorted(panicking) or "nothing"),
